@@ -38,7 +38,10 @@ func (q Query) Execute(j *journal.Builder, r *Report) *journal.Processor {
 				ss := q.Universe.Locate(com)
 				level, suffix, ok := q.Mapping.Level(strings.Join(ss, ":"))
 				if ok && level < len(ss)-suffix {
-					ss = append(ss[:level], ss[len(ss)-suffix:]...)
+					// do not append into the universe's own slice
+					mapped := make([]string, 0, level+suffix)
+					mapped = append(append(mapped, ss[:level]...), ss[len(ss)-suffix:]...)
+					ss = mapped
 				}
 				r.Add(ss, d.Date, v/total)
 			}
